@@ -269,7 +269,18 @@ impl PeerState {
             },
         };
         if let AcceptOutcome::Allow = outcome {
+            // If this accept takes over a slot held by our own dial, a resync that was requested while
+            // that dial was running must survive until the accepted session finishes.
+            let keep_resync = self.resync_requested
+                && matches!(
+                    self.state,
+                    SyncState::Running {
+                        origin: Origin::Connect(_),
+                        ..
+                    }
+                );
             self.set_sync_running(Origin::Accept);
+            self.resync_requested = keep_resync;
         }
         outcome
     }
